@@ -24,8 +24,10 @@ RULE = ("(a) every key of the regenerated table, pattern keys of online_filter/f
         "Lean model: stored value with exact type tag, warnings, error class) and through "
         "Configuration()[s][k]=v, .update, Configuration(cfg=...), upper/swap-cased keys; the "
         "property oracle (normalise twice == once, documented type, case-insensitive, rejects, "
-        "attribute round trip through an in-memory HDF5 file) is evaluated in Python on every "
-        "case. (b) configuration-file route: hand-written and tostring()-rendered lines loaded "
+        "attribute round trip through an in-memory HDF5 file; stored value == documented "
+        "converter of the COMMITTED baseline harness/c11_baseline.json applied to the input, "
+        "for every key the baseline knows incl. the online_filter pattern rules) is evaluated "
+        "in Python on every case, also in the search after a broken proof. (b) configuration-file route: hand-written and tostring()-rendered lines loaded "
         "with load_from_file/Configuration(files=) vs assignment of the text and vs the model. "
         "(c) store_metadata -> raw h5py attrs (vs model h5) and new_dataset (vs normalised), "
         "batches of keys; a sample carried through export.hdf5, compress, repack, condense, "
@@ -288,6 +290,47 @@ def answer(d, key, exc, ws):
     if present:
         return "stored " + enc_safe(d[lk]), ws
     return "rejected", ws
+
+
+_BASELINE = {}
+
+
+def baseline_doc(sec, lk, valid):
+    """(converter name, type tuple or None) DOCUMENTED for the key by the committed baseline
+    (harness/c11_baseline.json), or None when the baseline does not know the key"""
+    import numbers
+    if not _BASELINE:
+        from .c11_table import BASELINE_JSON
+        d = json.loads(BASELINE_JSON.read_text())
+        _BASELINE["rows"] = {(r[0], r[1]): (r[2], r[3]) for r in d["rows"]}
+        _BASELINE["patterns"] = d["online_filter_patterns"]
+        _BASELINE["types"] = {"builtins.str": str, "builtins.tuple": tuple,
+                              "numpy.ndarray": np.ndarray, "builtins.bool": bool,
+                              "numpy.bool": np.bool_, "builtins.float": float,
+                              "numbers.Integral": numbers.Integral, "builtins.list": list,
+                              "numbers.Number": numbers.Number}
+    hit = _BASELINE["rows"].get((sec, lk))
+    if hit is None and sec == "online_filter" and valid:
+        for suffix, conv, typ in _BASELINE["patterns"]:
+            if lk.endswith(suffix):
+                hit = (conv, typ)
+                break
+    if hit is None:
+        return None
+    try:
+        typ = tuple(_BASELINE["types"][t] for t in hit[1].split("|"))
+    except KeyError:
+        typ = None
+    return hit[0], typ
+
+
+def baseline_convert(name, v):
+    """apply the documented converter (by name) of the tree under test"""
+    from dclab.definitions import meta_parse
+    if name == "identity":
+        return v
+    f = {"float": float, "str": str}.get(name) or getattr(meta_parse, name)
+    return f(v)
 
 
 def set_primary(sec, key, v):
@@ -555,6 +598,24 @@ def oracle_assign(sec, key, v, attrs, dfn, cfgmod, quick_routes):
         if not same or (ws3 - {"wrongType"}) != (ws - {"wrongType"}):
             fails.append(f"route {route}: {a3} {fmt_warns(ws3)} vs item assignment {a} "
                          f"{fmt_warns(ws)} for [{sec}]:{key!r} = {v!r}")
+    # documented converter / type of the committed baseline (pins every key it knows)
+    doc = baseline_doc(sec, key.lower(), bool(valid)) if (valid and v is not None
+                                                          and not empty) else None
+    if doc is not None:
+        try:
+            with warnings.catch_warnings():
+                warnings.simplefilter("ignore")
+                want = "stored " + enc_safe(baseline_convert(doc[0], v))
+        except Exception as e:  # noqa
+            want = common.err_class(e)
+        if want != a and not ("?" in want and a.startswith("stored")):
+            fails.append(f"documented converter: [{sec}]:{key!r} = {v!r} -> {a}; the documented "
+                         f"converter {doc[0]} gives {want}")
+        elif a.startswith("stored") and doc[0] != "identity" and doc[1] is not None \
+                and not isinstance(w, doc[1]) and not (doc[0] == "lcstr"
+                                                       and isinstance(v, bytes)):
+            fails.append(f"documented type: [{sec}]:{key!r} = {v!r} stored as "
+                         f"{type(w).__name__}, documented {doc[1]}")
     if a.startswith("stored"):
         lk = key.lower()
         # idempotent
